@@ -7,7 +7,7 @@
                                term |-> [k |-> "yield"|"return"|"result"|"raise", catch |-> BOOLEAN, s |-> Struct]]
      Struct = [g |-> tag, n |-> int, xs |-> <<Struct>>]     tags  N T I C E L LF Bad  Tup Lst Dct
      prog.kinds[k] = [base |-> int, flush |-> "ok"|"itemerr"|"skip"|"raise"|"spawn"]
-     prog.ctxs[c]  = [type |-> "async"|"override"|"attr"|"nonasync", var |-> int, val |-> int, faulty |-> "-"|"pause"|"resume"]
+     prog.ctxs[c]  = [type |-> "async"|"override"|"oapi"|"attr"|"nonasync"|"timer"|"cleanup", var |-> int, val |-> int, faulty |-> "-"|"pause"|"resume"]
      prog.calls    = <<[root |-> t, conv |-> "call"|"value"]>>      (a session when longer than 1)
    Values and resolved structures share the shape [g, n, xs] because TLC cannot compare mixed types. *)
 EXTENDS Naturals, Integers, Sequences, FiniteSets, SequencesExt, TLC
